@@ -8,6 +8,7 @@ import (
 	"path/filepath"
 	"strings"
 	"time"
+	"unicode/utf8"
 
 	"github.com/spf13/afero"
 )
@@ -18,6 +19,44 @@ type Metadata struct {
 	Size    int64
 	Hash    []byte
 	Meta    map[string]string
+
+	// MetaRaw holds, in the stored form only, the values of Meta that are not
+	// valid UTF-8 (header values are octets: a Latin-1 file name in a
+	// Content-Disposition, for instance). JSON strings cannot carry them; they
+	// would come back with U+FFFD in place of every such byte.
+	MetaRaw map[string][]byte `json:",omitempty"`
+}
+
+// stored returns the form of the metadata that is written to disk.
+func (m Metadata) stored() Metadata {
+	for k, v := range m.Meta {
+		if utf8.ValidString(v) {
+			continue
+		}
+		if m.MetaRaw == nil {
+			// copy on first use: the caller's map is left alone
+			meta := make(map[string]string, len(m.Meta))
+			for mk, mv := range m.Meta {
+				meta[mk] = mv
+			}
+			m.Meta, m.MetaRaw = meta, map[string][]byte{}
+		}
+		m.MetaRaw[k] = []byte(v)
+		delete(m.Meta, k)
+	}
+	return m
+}
+
+// loaded undoes stored.
+func (m Metadata) loaded() Metadata {
+	if len(m.MetaRaw) > 0 && m.Meta == nil {
+		m.Meta = map[string]string{}
+	}
+	for k, v := range m.MetaRaw {
+		m.Meta[k] = string(v)
+	}
+	m.MetaRaw = nil
+	return m
 }
 
 type metaPath struct {
@@ -80,7 +119,7 @@ func (ms *metaStore) readMeta(fullPath string) (meta Metadata, ok bool) {
 	if err := json.Unmarshal(bts, &meta); err != nil {
 		return Metadata{}, false
 	}
-	return meta, true
+	return meta.loaded(), true
 }
 
 // describes reports whether the metadata was recorded for a file with this
@@ -150,7 +189,7 @@ func (ms *metaStore) saveMeta(path metaPath, meta *Metadata) error {
 // staged metadata matching the new file and commits it. Either way an object
 // is never served with the metadata of another.
 func (ms *metaStore) stageMeta(path metaPath, meta *Metadata) error {
-	bts, err := json.Marshal(meta)
+	bts, err := json.Marshal(meta.stored())
 	if err != nil {
 		return err
 	}
